@@ -265,17 +265,52 @@ func runGate(raw json.RawMessage) (interface{}, error) {
 	defer c.Close()
 	c.SetDeadline(time.Now().Add(5 * time.Second))
 	peer := c.LocalAddr().String()
+	outcome, err := exchange(c, in.Proto, in.XFF, in.Cred, nil)
+	if err != nil {
+		return nil, err
+	}
+	// a refused client has seen EOF/its status only after ServeTCP/ServeHTTP decided; give a wrongly started
+	// dial a moment to land before reading the counter
+	if outcome != "200" && outcome != "echo" {
+		// (also for 3xx: a redirect route must not touch the upstream at all)
+		time.Sleep(2 * time.Millisecond)
+	}
+	hits := e.hits.Load() - before
+	if hits > 1 {
+		hits = 1
+	}
+	host, _, _ := net.SplitHostPort(peer)
+	var tcpIP net.IP
+	if i := strings.IndexByte(host, '%'); i >= 0 {
+		tcpIP = net.ParseIP(host[:i])
+	} else {
+		tcpIP = net.ParseIP(host)
+	}
+	return map[string]interface{}{
+		"peer":    peer,
+		"outcome": outcome,
+		"hits":    hits,
+		"ref":     refEval(in.Allow, in.Deny, peer, in.XFF, tcpIP, true),
+	}, nil
+}
+
+// exchange plays the client's part over an established connection to one of the proxies and names what it saw:
+// the HTTP status, "echo" (the upstream answered), "closed" (the proxy closed the connection), or "garbled:…".
+func exchange(c net.Conn, proto string, xff []string, cred credIn, extra http.Header) (string, error) {
 	outcome := ""
-	switch in.Proto {
+	switch proto {
 	case "http":
 		req, _ := http.NewRequest("GET", "http://c12.test/p/x", nil)
-		for _, l := range in.XFF {
+		for _, l := range xff {
 			req.Header.Add("X-Forwarded-For", l)
 		}
-		in.Cred.apply(req.Header)
+		cred.apply(req.Header)
+		for k, vs := range extra {
+			req.Header[k] = vs
+		}
 		req.Close = true
 		if err := req.Write(c); err != nil {
-			return nil, err
+			return "", err
 		}
 		resp, err := http.ReadResponse(bufio.NewReader(c), req)
 		if err != nil {
@@ -310,29 +345,7 @@ func runGate(raw json.RawMessage) (interface{}, error) {
 			outcome = "garbled:" + line
 		}
 	}
-	// a refused client has seen EOF/its status only after ServeTCP/ServeHTTP decided; give a wrongly started
-	// dial a moment to land before reading the counter
-	if outcome != "200" && outcome != "echo" {
-		// (also for 3xx: a redirect route must not touch the upstream at all)
-		time.Sleep(2 * time.Millisecond)
-	}
-	hits := e.hits.Load() - before
-	if hits > 1 {
-		hits = 1
-	}
-	host, _, _ := net.SplitHostPort(peer)
-	var tcpIP net.IP
-	if i := strings.IndexByte(host, '%'); i >= 0 {
-		tcpIP = net.ParseIP(host[:i])
-	} else {
-		tcpIP = net.ParseIP(host)
-	}
-	return map[string]interface{}{
-		"peer":    peer,
-		"outcome": outcome,
-		"hits":    hits,
-		"ref":     refEval(in.Allow, in.Deny, peer, in.XFF, tcpIP, true),
-	}, nil
+	return outcome, nil
 }
 
 var (
@@ -369,7 +382,7 @@ func genGate(r *hx.Rand) gateIn {
 		}
 		in.Scheme, in.Registered, in.Cred = a.Scheme, a.Registered, a.Cred
 		if r.Chance(1, 3) {
-			in.Redirect = r.Pick([]string{"301", "302", "307", "308", "301", "399", "200", "abc"})
+			in.Redirect = r.Pick([]string{"301", "302", "307", "308", "301", "399", "200", "abc", "+301", "-301", "0302", "300", "400", "299", " 301", "308 ", "3_01", "0x12d", "3e2", "+", "99999999999999999999"})
 		}
 		if r.Chance(1, 4) {
 			in.Strip = "/p"
